@@ -188,6 +188,8 @@ def _shard(arg):
         st.one_of(st.tuples(st.just("soup-dates"), gen.soup_strategy(gen.DATE_POOLS, 5)),
                   st.tuples(st.just("soup-dates"), gen.soup_strategy(gen.DATE_POOLS, 4)),
                   st.tuples(st.just("soup"), gen.soup_strategy(max_tokens=5)),
+                  st.tuples(st.just("family"), gen.family_strategy()),
+                  st.tuples(st.just("family"), gen.family_strategy()),
                   st.tuples(st.just("mutated-corpus"), gen.mutate_strategy()),
                   st.tuples(st.just("unicode"), st.text(alphabet=assigned, max_size=30))),
         gen.ts_strategy(), st.booleans(), st.sampled_from([10, 10, 10, 0, 1]))
